@@ -100,6 +100,16 @@ func newReadWriteSegment(basePath string, baseOffset int64, segmentSize uint32, 
 		ms.currentFileOffset, ms.c.baseOffset, commitOffset); err != nil {
 		return nil, errors.Wrapf(err, "failed to rebuild index for segment file %s", ms.c.txnPath)
 	}
+
+	// Whatever follows the recovered end of the log is not part of it: a torn or discarded
+	// tail, possibly with intact records behind a hole. Clear it, as Truncate does, otherwise
+	// a later scan that arrives exactly at the start of such a stale record (after new entries
+	// were appended over the hole) would bring it back to life.
+	for i := ms.currentFileOffset; i < segmentSize; i++ {
+		if ms.txnMappedFile[i] != 0 {
+			ms.txnMappedFile[i] = 0
+		}
+	}
 	return ms, nil
 }
 
